@@ -19,7 +19,7 @@ def _pick(x, lo, hi):
     return hi
 
 
-SIGMA_ERR = pc.SIGMA + ["[", "]", "{", "}", "`", '"', "'", ",", "%", "f(", "``"]
+SIGMA_ERR = pc.SIGMA + ["[", "]", "{", "}", "`", '"', "'", ",", "%", "f(", "``", "00", "01", "2.5"]
 CUT20 = ["a", "1", "+", "-", "*", "/", ":", "**", "~", "|", "(", ")", "[", "]", "{", "}", "`", "f(", "b", "."]  # quick uses the first 16
 FLAGSETS = [tuple(f for f, on in zip(("TWOSIDED", "MULTIPART", "MULTISTAGE"), bits) if on) for bits in [(a, b, c) for a in (1, 0) for b in (1, 0) for c in (1, 0)]]
 
@@ -76,19 +76,19 @@ def _ok(s, flags=("TWOSIDED", "MULTIPART"), ii=True):
 
 def err1(k0: int, ii: bool) -> bool:
     """
-    pre: 0 <= k0 < 30
+    pre: 0 <= k0 < 33
     post: _
     """
-    return _ok(SIGMA_ERR[_pick(k0, 0, 29)], ii=bool(ii))
+    return _ok(SIGMA_ERR[_pick(k0, 0, 32)], ii=bool(ii))
 
 
 def err2(k0: int, k1: int) -> bool:
     """
-    pre: 0 <= k0 < 30 and 0 <= k1 < 30 and k0 == __SHARD__
+    pre: 0 <= k0 < 33 and 0 <= k1 < 33 and k0 == __SHARD__
     post: _
     """
     A = SIGMA_ERR
-    return _ok(" ".join([A[_pick(k0, 0, 29)], A[_pick(k1, 0, 29)]]))
+    return _ok(" ".join([A[_pick(k0, 0, 32)], A[_pick(k1, 0, 32)]]))
 
 
 def err3(k0: int, k1: int, k2: int) -> bool:
@@ -102,11 +102,11 @@ def err3(k0: int, k1: int, k2: int) -> bool:
 
 def err3full(k0: int, k1: int, k2: int) -> bool:
     """
-    pre: 0 <= k0 < 30 and 0 <= k1 < 30 and 0 <= k2 < 30 and k0 == __SHARD__
+    pre: 0 <= k0 < 33 and 0 <= k1 < 33 and 0 <= k2 < 33 and k0 == __SHARD__
     post: _
     """
     A = SIGMA_ERR
-    return _ok(" ".join([A[_pick(k0, 0, 29)], A[_pick(k1, 0, 29)], A[_pick(k2, 0, 29)]]))
+    return _ok(" ".join([A[_pick(k0, 0, 32)], A[_pick(k1, 0, 32)], A[_pick(k2, 0, 32)]]))
 
 
 def err4(k0: int, k1: int, k2: int, k3: int) -> bool:
@@ -182,10 +182,10 @@ SEEDS = [
 
 def edit1(seed: int, pos: int, k: int, mode: int) -> bool:
     """
-    pre: 0 <= seed < 20 and 0 <= pos < 8 and 0 <= k < 30 and 0 <= mode < 3 and seed == __SHARD__
+    pre: 0 <= seed < 20 and 0 <= pos < 8 and 0 <= k < 33 and 0 <= mode < 3 and seed == __SHARD__
     post: _
     """
-    seed, pos, k, mode = _pick(seed, 0, 19), _pick(pos, 0, 7), _pick(k, 0, 29), _pick(mode, 0, 2)
+    seed, pos, k, mode = _pick(seed, 0, 19), _pick(pos, 0, 7), _pick(k, 0, 32), _pick(mode, 0, 2)
     toks = SEEDS[seed].split(" ")
     if pos > len(toks) - (0 if mode == 1 else 1):
         return True
